@@ -24,6 +24,7 @@ def run(ctx):
     # the bucket table at the grain of its critical sections: a bucket is forgotten only atomically with the
     # decision (the variant that decides under the lock and removes afterwards loses a spent bucket)
     ctx.exhaustive("LimiterStep", "LimiterStep_MC", timeout=300)
+    ctx.extra["tlaps_obligations_LimiterStepProof"] = vf.tlapm("LimiterStepProof", deps=("LimiterStep",))
     sp = vf.tlc("LimiterStep", cfg="LimiterStep_split", timeout=300)
     if sp.ok or sp.violated != "Inv_C15_BurstBound":
         raise vf.MachineryError("sensitivity run LimiterStep_split was not rejected")
